@@ -49,6 +49,15 @@ def one_op(t, view, k, op, out, prefix, forks=None):
                     return '%d:%d:' % (a, b) + ','.join('1' if x else '0' for x in items)
                 return '%d:%d:' % (a, b) + ','.join(to_val(t[1], x) for x in items)
             out.append('%d.%s=%s' % (k, prefix, status(sl)))
+        elif o == 'iterk':
+            def iterk():
+                # a consumer that stops early: only the first items of a plain iteration are asked for
+                import itertools
+                items = list(itertools.islice(iter(view), int(op[1])))
+                if kind(t) in ('bv', 'bl'):
+                    return ','.join('1' if x else '0' for x in items)
+                return ','.join(to_val(t[1], x) for x in items)
+            out.append('%d.%s=%s' % (k, prefix, status(iterk)))
         elif o == 'sub':
             def sub():
                 from pyimpl_store import child_of
@@ -130,7 +139,7 @@ def refetched(old, new):
     return bad
 
 
-def run_partial(t, v, positions, ops):
+def run_partial(t, v, positions, ops, virtual=False):
     T = mk_type(t)
     try:
         x = mk_val(t, v)
@@ -145,6 +154,22 @@ def run_partial(t, v, positions, ops):
         except Exception:
             done.append('0')
     out = ['p.summ=%s' % ''.join(done), 'p.root=%s' % hexr(b), 'p.croot=%s' % hexr(x.get_backing())]
+    if virtual:
+        # the PARTIAL tree served lazily by a root-keyed source (`p`) next to the materialised partial tree (`c`)
+        try:
+            import remerkleable.virtual  # noqa: F401
+        except Exception as e:
+            return 'p.import=err:%s' % type(e).__name__
+        store = Store(b)
+        if store.ambiguous:
+            return 'p.skip=ambiguous'
+        y = T.view_from_backing(store.node(bytes(b.merkle_root())))
+        z = T.view_from_backing(b)
+        fy, fz = [], []
+        for k, op in enumerate(ops):
+            one_op(t, y, k, op, out, 'v', fy)
+            one_op(t, z, k, op, out, 'c', fz)
+        return ';'.join(out)
     y = T.view_from_backing(b)
     # the same ops on the complete tree, in lockstep: a mutation (other than a slice assignment) that fails on
     # the partial tree is not applied to the complete one either
